@@ -180,13 +180,8 @@ func judgeTree(c TreeCase) (vs []evid.Violation) {
 	if !bytes.Equal(in, inSnapshot) {
 		vs = append(vs, evid.V("decode-input-unmodified", "Decode modified its input"))
 	}
-	// the decoded element must not alias the input: reuse the input buffer, the element stays what it was
-	for i := range in {
-		in[i] ^= 0xa5
-	}
-	if back2, cerr2 := fromLib(e); cerr2 != nil || !rlpref.Equal(back2, it) {
-		vs = append(vs, evid.V("decode-result-independent-of-input-buffer", "the decoded element changed when the caller reused the input buffer"))
-	}
+	// Not asserted: that the result is independent of the input buffer of the SAME call (a zero-copy view is a
+	// legitimate design and the statement speaks of the value returned); see DESIGN.md 7.4.
 	// results are the caller's to modify: scribble over every string of the decoded element and over
 	// the bytes Encode() returned, then decode the same input once more - same tree as the first time
 	reenc := e.Encode()
